@@ -24,15 +24,15 @@ UNIT = {
         # appears with "disabled derive options" / on "user-excluded types"): the four decisions, extracted as statements
         {"kind": "fn", "file": CG, "name": "needs_debug_impl", "impl": CI, "ret": "r_unit",
          "closure": {"enclosing": "codegen", "anchor": "if !derivable_traits.contains(DerivableTraits::DEBUG) {", "nth": 0, "stmt": True,
-                     "signature": "fn needs_debug_impl(ctx: &BindgenContext, item: &Item, derivable_traits: DerivableTraits, needs_debug_impl: &mut bool)",
+                     "signature": "fn needs_debug_impl(self_: &CompInfo, packed: bool, is_opaque: bool, is_union: bool, zero_sized: bool, forward_decl: bool, explicit_align: Option<usize>, ctx: &BindgenContext, item: &Item, derivable_traits: DerivableTraits, needs_debug_impl: &mut bool)",
                      "prefix": "{", "suffix": "}"},
-         "subst": [("needs_debug_impl =", "*needs_debug_impl =", 1, "R18 captured by mutable reference")],
+         "subst": [("needs_debug_impl =", "*needs_debug_impl =", 1, "R18 captured by mutable reference"), ("self", "self_", 0, "R18 captured self (if used)")],
          "ensures": [
              "*final(needs_debug_impl) == (if derivable_traits.debug { *old(needs_debug_impl) } else { ctx.spec_options().derive_debug && ctx.spec_options().impl_debug && !ctx.s_no_debug_by_name(item) && !item.s_annotations().s_no_debug() })",
          ]},
         {"kind": "fn", "file": CG, "name": "needs_default_impl", "impl": CI, "ret": "r_unit",
          "closure": {"enclosing": "codegen", "anchor": "if !derivable_traits.contains(DerivableTraits::DEFAULT) {", "nth": 0, "stmt": True,
-                     "signature": "fn needs_default_impl(self_: &CompInfo, ctx: &BindgenContext, item: &Item, derivable_traits: DerivableTraits, needs_default_impl: &mut bool)",
+                     "signature": "fn needs_default_impl(self_: &CompInfo, packed: bool, is_opaque: bool, is_union: bool, zero_sized: bool, forward_decl: bool, explicit_align: Option<usize>, ctx: &BindgenContext, item: &Item, derivable_traits: DerivableTraits, needs_default_impl: &mut bool)",
                      "prefix": "{", "suffix": "}"},
          "subst": [("needs_default_impl =", "*needs_default_impl =", 1, "R18 captured by mutable reference"), ("self", "self_", 1, "R18 captured self")],
          "ensures": [
@@ -40,17 +40,17 @@ UNIT = {
          ]},
         {"kind": "fn", "file": CG, "name": "needs_clone_impl", "impl": CI, "ret": "r_unit",
          "closure": {"enclosing": "codegen", "anchor": "if derivable_traits.contains(DerivableTraits::COPY)", "nth": 0, "stmt": True,
-                     "signature": "fn needs_clone_impl(derivable_traits: DerivableTraits, needs_clone_impl: &mut bool)",
+                     "signature": "fn needs_clone_impl(self_: &CompInfo, packed: bool, is_opaque: bool, is_union: bool, zero_sized: bool, forward_decl: bool, explicit_align: Option<usize>, ctx: &BindgenContext, item: &Item, derivable_traits: DerivableTraits, needs_clone_impl: &mut bool)",
                      "prefix": "{", "suffix": "}"},
-         "subst": [("needs_clone_impl =", "*needs_clone_impl =", 1, "R18 captured by mutable reference")],
+         "subst": [("needs_clone_impl =", "*needs_clone_impl =", 1, "R18 captured by mutable reference"), ("self", "self_", 0, "R18 captured self (if used)")],
          "ensures": [
              "*final(needs_clone_impl) == (if derivable_traits.copy && !derivable_traits.clone { true } else { *old(needs_clone_impl) })",
          ]},
         {"kind": "fn", "file": CG, "name": "needs_partialeq_impl", "impl": CI, "ret": "r_unit",
          "closure": {"enclosing": "codegen", "anchor": "if !derivable_traits.contains(DerivableTraits::PARTIAL_EQ) {", "nth": 0, "stmt": True,
-                     "signature": "fn needs_partialeq_impl(ctx: &BindgenContext, item: &Item, derivable_traits: DerivableTraits, needs_partialeq_impl: &mut bool)",
+                     "signature": "fn needs_partialeq_impl(self_: &CompInfo, packed: bool, is_opaque: bool, is_union: bool, zero_sized: bool, forward_decl: bool, explicit_align: Option<usize>, ctx: &BindgenContext, item: &Item, derivable_traits: DerivableTraits, needs_partialeq_impl: &mut bool)",
                      "prefix": "{", "suffix": "}"},
-         "subst": [("needs_partialeq_impl =", "*needs_partialeq_impl =", 1, "R18 captured by mutable reference")],
+         "subst": [("needs_partialeq_impl =", "*needs_partialeq_impl =", 1, "R18 captured by mutable reference"), ("self", "self_", 0, "R18 captured self (if used)")],
          "ensures": [
              "*final(needs_partialeq_impl) == (if derivable_traits.partial_eq { *old(needs_partialeq_impl) } else { ctx.spec_options().derive_partialeq && ctx.spec_options().impl_partialeq && ctx.s_peq_or_pord(item.s_id()) == CanDerive::Manually })",
          ]},
